@@ -125,6 +125,12 @@ def h_negative_error(eng, u):
                 eng.prove(e >= 0, f"error-accepted-only-when-non-negative:{name}")
 
 
+def _other_dimension(u):
+    """a unit of another dimension than u (and not u itself)"""
+    dims = covers.infos()[u].dims
+    return "ampere" if dims != covers.infos()["ampere"].dims else "candela"
+
+
 def h_convert(eng, u, w):
     ureg, (v, e) = _reg_and_nums(eng, ["v", "e"])
     inf = covers.infos()
@@ -149,7 +155,7 @@ def h_convert(eng, u, w):
         _close(eng, back.value.magnitude, v, "convert:round-trip-nominal")
         _close(eng, back.error.magnitude, e, "convert:round-trip-error")
         try:
-            m.to("ampere")
+            m.to(_other_dimension(u))
         except DimensionalityError:
             eng.prove(True, "convert:incompatible-raises")
         else:
@@ -179,11 +185,12 @@ def h_arith(eng, u, w):
         _close(eng, k.magnitude.nominal_value, v1 * c, "scalar-multiple:nominal")
         _close(eng, k.magnitude.std_dev, abs(c) * e1, "scalar-multiple:std")
         eng.prove(str(k.units) == u, "scalar-multiple:units")
-        q = a * ureg.Quantity(c, "ampere")
-        eng.prove(dict(q._units) == {u: 1, "ampere": 1}, "times-quantity:units")
+        od = _other_dimension(u)
+        q = a * ureg.Quantity(c, od)
+        eng.prove(dict(q._units) == {u: 1, od: 1}, "times-quantity:units")
         _close(eng, q.magnitude.nominal_value, v1 * c, "times-quantity:nominal")
         try:
-            a + ureg.Measurement(v2, e2, "ampere")
+            a + ureg.Measurement(v2, e2, od)
         except DimensionalityError:
             eng.prove(True, "sum:incompatible-raises")
         else:
@@ -210,6 +217,45 @@ def h_parse(eng, u):
             _close(eng, mag.std_dev, e, "parse:std")
             if u in text:
                 eng.prove(str(q.units) == u, "parse:units")
+        # the notation is an operand like any other: at the end of the text, after an operator,
+        # under a sign, as a base of a power -- the group stays a group
+        two = 2.0 if not eng.symbolic else eng.num(2)
+        for label, text, nv, sv in (
+            ("alone", f"({lit(v)} +/- {lit(e)})", v, e),
+            ("alone-tight", f"({lit(v)}+/-{lit(e)})", v, e),
+            ("after-times", f"2 * ({lit(v)} +/- {lit(e)})", two * v, two * e),
+            ("before-times", f"({lit(v)} +/- {lit(e)}) * 2", two * v, two * e),
+            ("after-minus", f"-({lit(v)} +/- {lit(e)})", -v, e),
+            ("minus-inside", f"(-{lit(v)} +/- {lit(e)})", -v, e),
+            ("after-plus", f"2 + ({lit(v)} +/- {lit(e)})", two + v, e),
+            ("squared", f"({lit(v)} +/- {lit(e)}) ** 2", v * v, two * v * e),
+            ("squared-caret", f"({lit(v)} +/- {lit(e)})^2", v * v, two * v * e),
+            ("minus-inside-squared", f"(-{lit(v)} +/- {lit(e)}) ** 2", v * v, two * v * e),
+            ("squared-with-unit", f"({lit(v)} +/- {lit(e)}) ** 2 {u}", v * v, two * v * e),
+            ("divided-by-two-then-unit", f"({lit(v)} +/- {lit(e)}) / 2 {u}", v / two, e / two),
+        ):
+            try:
+                q = ureg.parse_expression(text)
+            except (IndexError, ValueError, TypeError, AssertionError) as ex:
+                eng.fail(f"parse-operand:{label}:raises-{type(ex).__name__}", stop=False)
+                continue
+            mag = q.magnitude if hasattr(q, "magnitude") else q
+            eng.prove(hasattr(mag, "nominal_value"), f"parse-operand:{label}:uncertain-magnitude")
+            if hasattr(mag, "nominal_value"):
+                _close(eng, mag.nominal_value, nv, f"parse-operand:{label}:nominal")
+                _close(eng, mag.std_dev, sv, f"parse-operand:{label}:std")
+        for label, text, nv, sv in (("paren-alone", "1.234(5)", "1.234", "0.005"), ("paren-after-times", "2 * 8.0(4)", "16.0", "0.8"), ("paren-squared", "2.0(1) ** 2", "4.0", "0.4")):
+            cv = (lambda t: float(t)) if not eng.symbolic else (lambda t: eng.num(Fraction(t)))
+            try:
+                q = ureg.parse_expression(text)
+            except (IndexError, ValueError, TypeError, AssertionError) as ex:
+                eng.fail(f"parse-operand:{label}:raises-{type(ex).__name__}", stop=False)
+                continue
+            mag = q.magnitude if hasattr(q, "magnitude") else q
+            eng.prove(hasattr(mag, "nominal_value"), f"parse-operand:{label}:uncertain-magnitude")
+            if hasattr(mag, "nominal_value"):
+                _close(eng, mag.nominal_value, cv(nv), f"parse-operand:{label}:nominal")
+                _close(eng, mag.std_dev, cv(sv), f"parse-operand:{label}:std")
         # parenthesised-uncertainty notation: the digits in parentheses are aligned with the last
         # digits of the nominal value (1.234(5) = 1.234 +/- 0.005); an explicit decimal point in
         # the parentheses gives the error as written
